@@ -130,6 +130,7 @@ fn main() {
         if d.n <= 2 || th {
             moves.extend(pd_r2_moves(d));
         }
+        moves.extend(pd_r3_moves(d));
         for (mv, d2) in moves {
             cx.all_rings_edge(name, d, &mv, &d2, light || d2.n >= 4);
             if th && d.n <= 2 {
@@ -224,7 +225,7 @@ fn main() {
         "traces_validated_against_impl": run.get("evaluations"),
         "evaluations": run.get("evaluations"),
         "distinct_nontrivial": run.get("move_edges"),
-        "rule": "move graph: vertices = all planar diagrams with <= 3 crossings and all braid closures up to the stated word lengths; edges = every single R1 (4 kinks on every edge), every PD-level R2 (parallel and antiparallel, any two edges of a common face; diagrams with <= 2 crossings, thorough <= 3), crossing reorder, reversal of all orientations, edge renumbering (PD level), and every R2 insertion, far commutation, R3 in all valid sign patterns, conjugation and Markov stabilisation (braid level); thorough adds depth-2 paths; each edge compares the library's bigraded tables of both endpoints over i64, Ratio<i64>, FF2, FF<3> (reduced too for knots)",
+        "rule": "move graph: vertices = all planar diagrams with <= 3 crossings and all braid closures up to the stated word lengths; edges = every single R1 (4 kinks on every edge), every PD-level R2 (parallel and antiparallel, any two edges of a common face; diagrams with <= 2 crossings, thorough <= 3), every PD-level R3 (all triangular faces with linearly ordered heights, all strand orientations), crossing reorder, reversal of all orientations, every presentation (edge renumbering x listing order) (PD level), and every R2 insertion, far commutation, R3 in all valid sign patterns, conjugation and Markov stabilisation (braid level); thorough adds depth-2 paths; each edge compares the library's bigraded tables of both endpoints over i64, Ratio<i64>, FF2, FF<3> (reduced too for knots)",
         "mirror_checks": run.get("mirror_checks"),
         "exhaustive": true,
     });
@@ -232,7 +233,7 @@ fn main() {
         coverage,
         &[
             "the move generators are validated independently: every generated move preserves the reference Kauffman state sum (C04) and the reference cube homology (unit tests of vcore::reflink)",
-            "R3 is exercised through braid words only (all valid sign patterns), not on arbitrary triangles of a PD diagram; R2 both on braid words and at the PD level",
+            "R2 and R3 are exercised both on braid words and at the PD level (R2: any two edges of a common face, parallel and antiparallel; R3: any triangular face with linearly ordered heights)",
         ],
     );
 }
